@@ -1,12 +1,75 @@
+"""C05 -- the initial tick updates every device at every depth exactly once.
+(a) whole simulations of generated nestings compared with Model/Sim.v, oracle: every device exactly once at the
+    initial time, before any later update (61, 62);
+(b) an inner (or top-level) device raises an interrupt at event-loop step k, for every k before that device has
+    had its first update (adapters that interrupt as soon as they start, while the initial tick is on its way down
+    the nesting): still every device is updated in the initial tick (63)."""
+import slevel
 import sprops
+from common import P, T, run_shards
 
 PID = "C05"
+EXT, EXP = 1, 2
+
+
+def early_part(ck, tier, rng):
+    configs = [
+        ("nested", {1: dict(order=[(3, "dev"), (4, 2), (7, "dev")], conns=[(3, 1, 4, 1), (4, 1, 7, 1)]),
+                    2: dict(order=[(5, "dev"), (6, "dev")], conns=[(EXT, 1, 5, 1), (5, 1, 6, 1), (6, 1, EXP, 1)])},
+         {3: (5, 400_000_000, 1), 5: (5, 300_000_000, 0), 6: (5, 600_000_000, 1), 7: (5, 300_000_000, 0)}),
+        ("unfed", {1: dict(order=[(3, 2), (8, "dev")], conns=[(3, 1, 8, 1)]),
+                   2: dict(order=[(4, "dev"), (5, 3), (9, "dev")], conns=[(4, 1, 5, 1), (5, 1, EXP, 1)]),
+                   3: dict(order=[(6, "dev"), (7, "dev")], conns=[(EXT, 1, 6, 1), (7, 1, EXP, 1)])},
+         {4: (9, 500_000_000, 1), 6: (9, 300_000_000, 0), 7: (9, 400_000_000, 1), 8: (9, 300_000_000, 0), 9: (9, 300_000_000, 2)}),
+    ]
+    if tier == "thorough":
+        for _ in range(10):
+            cfg = slevel.gen_config(rng, depth=rng.choice([1, 2]), p_sys=0.6)
+            configs.append(("random", cfg, slevel.gen_devs(rng, cfg, (0, 1, 2))))
+    t_end = 700_000_003
+    cases, terms = [], []
+    for name, cfg, devs in configs:
+        for d in slevel.devices_of(cfg):
+            for k in range(1, 60):
+                r = slevel.run_internal(cfg, devs, (1, 1), 0, [], t_end, inject=(k, d))
+                inj = r["inj"]
+                if not inj:
+                    continue            # the component did not exist yet at that step
+                if any(c == d for (c, _, _) in r["trace"][:inj["pos"]]):
+                    break               # the device has had its first update: later interrupts are C07's subject
+                cases.append(dict(name=name, cfg=cfg, devs=devs, device=d, step=k, run=r))
+                terms.append(T(slevel.render_sim_case(cfg, devs, (1, 1), 0, [], t_end, r), P(d)))
+    bad = run_shards(PID + "_early", sprops.HEADER, "early_case", "check_initial_early", terms, shard_size=40)
+    for i, c in enumerate(cases):
+        ck.count(f"early:{c['name']}:{c['device']}:{c['step']}", bool(slevel.path_of(c["cfg"], c["device"])[1]))
+        if c["run"]["error"] or c["run"]["errors"]:
+            bad.setdefault(i, []).append(63)
+    ck.coverage.update(early_interrupt_runs=len(cases), early_interrupt_disagreements=len(bad))
+    for i in sorted(bad):
+        c = cases[i]
+        ck.report("device-not-updated-in-initial-tick-after-an-early-interrupt",
+                  f"device c{c['device']} interrupts at loop step {c['step']}, before the master ticks ({c['name']}): some device is not "
+                  f"updated in the initial tick",
+                  dict(kind="early", cfg={str(k): v for k, v in c["cfg"].items()}, devs={str(k): v for k, v in c["devs"].items()},
+                       device=c["device"], step=c["step"], updates=[(cc, t) for (cc, t, _) in c["run"]["trace"]][:40],
+                       errors=c["run"]["errors"][:2]))
+        break
 
 
 def main(tier, seed):
     return sprops.main_S(PID, tier, seed, {61, 62}, "Props.C05",
                          ["Model/Sim.v", "Oracle/SimCheck.v", "Oracle/SimOracle.v", "Proofs/SimP.v", "Props/C05.v"],
-                         "initial tick", "initial")
+                         "initial tick", "initial", extra=early_part)
 
 
-replay = sprops.replay_S
+def replay(rp):
+    if rp.get("kind") != "early":
+        return sprops.replay_S(rp)
+    cfg = {int(k): dict(order=[(c, (kk if kk == "dev" else int(kk))) for c, kk in v["order"]], conns=[tuple(x) for x in v["conns"]]) for k, v in rp["cfg"].items()}
+    devs = {int(k): tuple(v) for k, v in rp["devs"].items()}
+    r = slevel.run_internal(cfg, devs, (1, 1), 0, [], 700_000_003, inject=(rp["step"], rp["device"]))
+    bad = run_shards("replay", sprops.HEADER, "early_case", "check_initial_early",
+                     [T(slevel.render_sim_case(cfg, devs, (1, 1), 0, [], 700_000_003, r), P(rp["device"]))])
+    print("updates (device, time):", [(c, t) for (c, t, _) in r["trace"]][:40], "errors:", r["errors"][:2])
+    print("codes:", bad.get(0, []))
+    return 1 if bad or r["errors"] else 0
